@@ -159,7 +159,7 @@ def run_shard(spec, emit):
     capture.install()
     n_ops = 14 if tier == "quick" else 120
     n_draws = 25 if tier == "quick" else 60
-    deadline = time.monotonic() + (85 if tier == "quick" else 2400)
+    deadline = time.monotonic() + (85 if tier == "quick" else 300)
     samples = 0
     for op_idx in range(n_ops):
         if time.monotonic() > deadline:
